@@ -19,11 +19,11 @@ Theorem C02_current_routing :
 Proof. vm_compute. repeat split; reflexivity. Qed.
 
 (** Defence in depth (not needed by the theorems, checked so that their removal is noticed): the two Nibiru
-    guards sit in the non-EVM chain ahead of everything else and test the types they are meant to; the wasm
+    guards sit in the non-EVM chain (every decorator of the chain runs before the message router) and test the types they are meant to; the wasm
     handler refuses MsgEthereumTx; ValidateBasic / fee / sequence decorators present; the EVM chain validates
     that every message is a MsgEthereumTx and checks the sender account. *)
 Theorem C02_current_guards :
-  index_of N_PREVENT_ETH nonevm_chain = Some 0%nat /\ index_of N_AUTHZ_GUARD nonevm_chain = Some 1%nat /\
+  mem N_PREVENT_ETH nonevm_chain = true /\ mem N_AUTHZ_GUARD nonevm_chain = true /\
   g_prevent current_cfg = true /\ g_authz current_cfg = true /\ g_authz_exec current_cfg = true /\ wasm_no_eth current_cfg = true /\
   vb_on current_cfg = true /\ fee_on current_cfg = true /\ seq_on current_cfg = true /\
   e_vb current_cfg = true /\ e_acc current_cfg = true.
